@@ -4,7 +4,7 @@
 # VERIF_NO_REPLAY=1 (generated search only, no stored counterexamples) and writes one line per change to
 # seeded/RESULTS.txt.
 cd /verif
-OUT=seeded/RESULTS.txt
+OUT=${OUT:-seeded/RESULTS.txt}
 : > $OUT.tmp
 for d in seeded/${1:-C}*/; do
   id=$(basename $d)
